@@ -289,8 +289,8 @@ def rand_header_presets(rng, bs, sh):
                                    ("color_matrix", bs.ColorMatrix, "custom_color_matrix_flag", 4),
                                    ("transfer_function", bs.TransferFunction, "custom_transfer_function_flag", 5)):
             q = rng.random()
-            if q < 0.5:
-                cs[key] = cls(**{flag: True, "index": rng.randrange(0, hi + 1)})
+            if q < 0.5:  # the highest index of each table needs version 3
+                cs[key] = cls(**{flag: True, "index": hi if rng.random() < 0.35 else rng.randrange(0, hi + 1)})
             elif q < 0.7:
                 cs[key] = cls(**{flag: False})
     elif r < 0.65:
@@ -929,7 +929,7 @@ def run(ctx):
 
     # ---- B: whole pipeline ------------------------------------------------------------------
     nH = ctx.pick(500, 6000)
-    nV = ctx.pick(160, 2500)
+    nV = ctx.pick(200, 2500)
     cases, metas = [], []
     unser = {}
     plan = [("hand", s) for s in CORPUS_HAND] + [("valid", s) for s in CORPUS_VALID]
